@@ -199,7 +199,7 @@ func FromJSONValue(v any) any {
 	case json.Number:
 		return canonNumber(string(v))
 	case string:
-		return T{"t": "str", "v": cps(v)}
+		return T{"t": "str", "s": cps(v)}
 	case []any:
 		out := make([]any, len(v))
 		for i := range v {
@@ -229,25 +229,25 @@ func canonNumber(lit string) any {
 	if !strings.ContainsAny(lit, ".eE") {
 		if n, ok := new(big.Int).SetString(lit, 10); ok {
 			if n.IsInt64() && n.Int64() < smallLimit && n.Int64() > -smallLimit {
-				return T{"t": "num", "v": n.Int64()}
+				return T{"t": "num", "n": n.Int64()}
 			}
-			return T{"t": "big", "v": cps(n.String())}
+			return T{"t": "big", "b": cps(n.String())}
 		}
 	}
 	f, err := strconv.ParseFloat(lit, 64)
 	if err != nil {
 		if math.IsInf(f, 0) {
-			return T{"t": "big", "v": cps(strconv.FormatFloat(f, 'g', -1, 64))}
+			return T{"t": "big", "b": cps(strconv.FormatFloat(f, 'g', -1, 64))}
 		}
-		return T{"t": "big", "v": cps("?" + lit)}
+		return T{"t": "big", "b": cps("?" + lit)}
 	}
 	if f == math.Trunc(f) && math.Abs(f) < smallLimit {
-		return T{"t": "num", "v": int64(f)}
+		return T{"t": "num", "n": int64(f)}
 	}
 	if f == math.Trunc(f) && math.Abs(f) < 1e18 {
-		return T{"t": "big", "v": cps(strconv.FormatInt(int64(f), 10))}
+		return T{"t": "big", "b": cps(strconv.FormatInt(int64(f), 10))}
 	}
-	return T{"t": "big", "v": cps(strconv.FormatFloat(f, 'g', -1, 64))}
+	return T{"t": "big", "b": cps(strconv.FormatFloat(f, 'g', -1, 64))}
 }
 
 // ParseJSONText decodes one JSON text to the tagged form.
@@ -377,11 +377,11 @@ func GojqCompile(prog string) (*Compiled, string) {
 		gojq.WithInputIter(c.ins),
 		// N3: provided by the jq command, documented behaviour
 		gojq.WithFunction("debug", 0, 0, func(v any, _ []any) any {
-			*c.side = append(*c.side, T{"t": "arr", "v": []any{T{"t": "str", "v": cps("DEBUG:")}, tag(v)}})
+			*c.side = append(*c.side, T{"t": "arr", "v": []any{T{"t": "str", "s": cps("DEBUG:")}, tag(v)}})
 			return v
 		}),
 		gojq.WithFunction("stderr", 0, 0, func(v any, _ []any) any {
-			*c.side = append(*c.side, T{"t": "str", "v": cps(tostring(v))})
+			*c.side = append(*c.side, T{"t": "str", "s": cps(tostring(v))})
 			return v
 		}),
 		gojq.WithFunction("input_filename", 0, 0, func(any, []any) any { return nil }),
@@ -431,7 +431,7 @@ func (c *Compiled) Run(input any, inputs []any, timeout time.Duration) (res Gojq
 					res.Out = append(res.Out, Outcome{"k": "e", "u": true, "v": o["v"]})
 				}
 			default:
-				res.Out = append(res.Out, Outcome{"k": "e", "u": false, "v": T{"t": "str", "v": cps(err.Error())}})
+				res.Out = append(res.Out, Outcome{"k": "e", "u": false, "v": T{"t": "str", "s": cps(err.Error())}})
 			}
 			break
 		}
@@ -442,6 +442,9 @@ func (c *Compiled) Run(input any, inputs []any, timeout time.Duration) (res Gojq
 		}
 	}
 	res.Side = append([]any{}, *c.side...)
+	if res.Side == nil {
+		res.Side = []any{}
+	}
 	if res.Out == nil {
 		res.Out = []Outcome{}
 	}
@@ -503,6 +506,65 @@ func ParseBatch(stdout string, nprog, nin int) ([][][]Outcome, error) {
 	}
 	if seen != nprog {
 		return nil, fmt.Errorf("batch answered %d of %d programs", seen, nprog)
+	}
+	return out, nil
+}
+
+// BatchExprSel is BatchExpr with, per program, the indices of $__vin it is evaluated on.
+func BatchExprSel(progs []string, sel [][]int) string {
+	var sb strings.Builder
+	sb.WriteString("$__vin as $__vin | (")
+	for k, p := range progs {
+		if k > 0 {
+			sb.WriteString(", ")
+		}
+		ix := make([]string, len(sel[k]))
+		for i, j := range sel[k] {
+			ix[i] = fmt.Sprint(j)
+		}
+		fmt.Fprintf(&sb, "[%d, [$__vin[%s] | [try ((%s\n) | [\"v\", .]) catch [\"e\", .]]]]", k, strings.Join(ix, ", "), p)
+	}
+	sb.WriteString(")")
+	return sb.String()
+}
+
+// ParseBatchSel reads the stdout of a BatchExprSel run: out[prog][n] = outcomes on the n-th selected input.
+func ParseBatchSel(stdout string, sel [][]int) ([][][]Outcome, error) {
+	out := make([][][]Outcome, len(sel))
+	seen := 0
+	for _, line := range strings.Split(stdout, "\n") {
+		if line == "" {
+			continue
+		}
+		d := json.NewDecoder(strings.NewReader(line))
+		d.UseNumber()
+		var rec []any
+		if err := d.Decode(&rec); err != nil || len(rec) != 2 {
+			return nil, fmt.Errorf("bad batch line %.200q", line)
+		}
+		kn, ok := rec[0].(json.Number)
+		runs, ok2 := rec[1].([]any)
+		k64, _ := kn.Int64()
+		k := int(k64)
+		if !ok || !ok2 || k < 0 || k >= len(sel) || len(runs) != len(sel[k]) || out[k] != nil {
+			return nil, fmt.Errorf("bad batch record %.200q", line)
+		}
+		out[k] = make([][]Outcome, len(runs))
+		for i, r := range runs {
+			out[k][i] = []Outcome{}
+			for _, o := range r.([]any) {
+				pr, ok := o.([]any)
+				if !ok || len(pr) != 2 {
+					return nil, fmt.Errorf("bad outcome in %.200q", line)
+				}
+				kind, _ := pr[0].(string)
+				out[k][i] = append(out[k][i], Outcome{"k": kind, "v": FromJSONValue(pr[1])})
+			}
+		}
+		seen++
+	}
+	if seen != len(sel) {
+		return nil, fmt.Errorf("batch answered %d of %d programs", seen, len(sel))
 	}
 	return out, nil
 }
